@@ -70,8 +70,8 @@ type c20ZeroTest struct {
 
 func c20Namespaces(c *core.Ctx) {
 	c.Rule("R-C20-5", "a namespace is removed from TrafficController.namespaces only when every sync.Map of that Namespace is known empty (own probe per map, tested after the probe) or all its entities were just closed, with tc.mutex held (by the function or by every caller): otherwise objects left in the dropped namespace are orphaned — later changes fail with 'namespace not found' (no Inherit, no Close) and a re-appearing name is initialised twice")
-	nsF := structField(c, c20tc, "TrafficController", "namespaces")
-	mutexF := structField(c, c20tc, "TrafficController", "mutex")
+	nsF := c20TCNamespacesField(c)
+	mutexF := c20TCMutexField(c)
 	nsT := namedType(c, c20tc, "Namespace")
 	pkg := c.Prog.Pkg(c20tc)
 	if nsF == nil || mutexF == nil || nsT == nil || pkg == nil {
@@ -143,6 +143,10 @@ func c20NamespaceFunc(c *core.Ctx, f *flow.Func, fd *ast.FuncDecl, cons string, 
 		}
 		fld := c20FieldOf(f, recv)
 		lit, ok := ast.Unparen(call.Args[0]).(*ast.FuncLit)
+		if !ok {
+			// a closure bound once to a named local: space.pipelines.Range(closePipeline)
+			lit, ok = f.FuncValue(call.Args[0]).(*ast.FuncLit)
+		}
 		if !isMap(fld) || !ok {
 			continue
 		}
@@ -402,6 +406,17 @@ func c20NamespaceFunc(c *core.Ctx, f *flow.Func, fd *ast.FuncDecl, cons string, 
 		},
 		OnCall: func(st *flow.State, call *ast.CallExpr, callee types.Object, deferred bool) {
 			if p := probeOf[call]; p != nil {
+				// the probe runs now: whatever was tested about its variables before is stale (the
+				// engine forgets them where the closure is created, which may be earlier)
+				for _, t := range tests {
+					for _, tv := range t.vars {
+						for _, pv := range p.vars {
+							if tv == pv {
+								st.Set(t.key, flow.Unknown)
+							}
+						}
+					}
+				}
 				if len(p.vars) > 0 {
 					st.Set("ev:probed:"+p.field.Name(), flow.True)
 				}
@@ -512,43 +527,65 @@ func c20NamespaceFunc(c *core.Ctx, f *flow.Func, fd *ast.FuncDecl, cons string, 
 
 		// lock: held here, or (function never locks) held at every call of this function
 		if locks == 0 {
-			fnObj, _ := f.Info.Defs[fd.Name].(*types.Func)
-			callers := 0
-			eachFunc(c, func(pkg2 *packages.Package, fd2 *ast.FuncDecl) {
-				if pkg2.PkgPath != f.Pkg.PkgPath || fd2 == fd {
-					return
-				}
-				g := flow.NewFunc(pkg2, fd2)
-				var sitesHere []*ast.CallExpr
-				for _, call := range calls(fd2.Body, true) {
-					if g.Callee(call) == types.Object(fnObj) && fnObj != nil {
-						sitesHere = append(sitesHere, call)
+			// the mutex must be held at every call of this function — by the caller itself, or (the
+			// caller being another non-locking "…Locked" helper) by the caller's callers
+			var held func(fnObj *types.Func, name string, depth int)
+			held = func(fnObj *types.Func, name string, depth int) {
+				callers := 0
+				eachFunc(c, func(pkg2 *packages.Package, fd2 *ast.FuncDecl) {
+					if pkg2.PkgPath != f.Pkg.PkgPath || fnObj == nil {
+						return
 					}
-				}
-				if len(sitesHere) == 0 {
-					return
-				}
-				r2 := analyze(c, g, flow.Config{NoHavoc: true, OnCall: lockHook(g)})
-				if r2 == nil {
-					return
-				}
-				for _, call := range sitesHere {
-					callers++
-					sts := r2.At[call]
-					if len(sts) == 0 {
-						fLock.fail(nil, call, declName(pkg2, fd2)+" calls "+fd.Name.Name+" from a function literal or unreachable code: the rule cannot see tc.mutex held there")
+					g := flow.NewFunc(pkg2, fd2)
+					if g.Info.Defs[fd2.Name] == types.Object(fnObj) {
+						return
 					}
-					for _, st := range sts {
-						fLock.n++
-						if !st.Is(evLocked, flow.True) {
-							fLock.fail(st, call, declName(pkg2, fd2)+" calls "+fd.Name.Name+" (which removes a namespace and does not lock itself) without tc.mutex held: a concurrent Create/Apply can store an object into the namespace value that is being dropped, or the emptiness probe races with it")
+					var sitesHere []*ast.CallExpr
+					callerLocks := false
+					for _, call := range calls(fd2.Body, true) {
+						if g.Callee(call) == types.Object(fnObj) {
+							sitesHere = append(sitesHere, call)
+						}
+						if fo, ok := g.Callee(call).(*types.Func); ok && fo.Pkg() != nil && fo.Pkg().Path() == "sync" && (fo.Name() == "Lock" || fo.Name() == "RLock") {
+							if sel, ok := ast.Unparen(call.Fun).(*ast.SelectorExpr); ok && c20FieldOf(g, sel.X) == mutexF {
+								callerLocks = true
+							}
 						}
 					}
+					if len(sitesHere) == 0 {
+						return
+					}
+					callers += len(sitesHere)
+					if !callerLocks && depth < 3 {
+						// a non-locking helper itself: its callers must hold the mutex
+						if o2, ok := g.Info.Defs[fd2.Name].(*types.Func); ok {
+							held(o2, fd2.Name.Name, depth+1)
+							return
+						}
+					}
+					r2 := analyze(c, g, flow.Config{NoHavoc: true, OnCall: lockHook(g)})
+					if r2 == nil {
+						return
+					}
+					for _, call := range sitesHere {
+						sts := r2.At[call]
+						if len(sts) == 0 {
+							c.Undecide("R-C20-5", cons+"|namespace removed under tc.mutex", pos(c, call), declName(pkg2, fd2)+" calls "+name+" from a function literal or unreachable code: the rule cannot see tc.mutex held there")
+						}
+						for _, st := range sts {
+							fLock.n++
+							if !st.Is(evLocked, flow.True) {
+								fLock.fail(st, call, declName(pkg2, fd2)+" calls "+name+" (which leads to the removal of a namespace and does not lock itself) without tc.mutex held: a concurrent Create/Apply can store an object into the namespace value that is being dropped, or the emptiness probe races with it")
+							}
+						}
+					}
+				})
+				if callers == 0 {
+					fLock.fail(nil, del, name+" leads to the removal of a namespace, does not lock tc.mutex itself and has no caller in the package that could hold it")
 				}
-			})
-			if callers == 0 {
-				fLock.fail(nil, del, fd.Name.Name+" removes a namespace, does not lock tc.mutex itself and has no caller in the package that could hold it")
 			}
+			fnObj, _ := f.Info.Defs[fd.Name].(*types.Func)
+			held(fnObj, fd.Name.Name, 0)
 		}
 		fLock.report(c, "R-C20-5", cons+"|namespace removed under tc.mutex", del,
 			sprintf("%d states (at the removal / at the callers of the non-locking helper) all hold tc.mutex", fLock.n))
